@@ -167,7 +167,7 @@ theorem unpack_more_unread (v : Ver) (gz : GzOracle) (codec : UInt8) (u : Bytes)
 
 /-- the same laws with the undelivered stream as a FUNCTION of the state: `unread v pend q` is the
 parked header re-encoded by the codec's own `Header.Pack` (nothing / byte 0 / the whole header),
-followed by the queue. `PendOK v pend` ↔ `Parked v pend (hdrBytes v pend)`. -/
+followed by the queue. `PendOK v pend` ↔ `Parked v pend (s_hdrBytes v pend)`. -/
 theorem unpack_unread_fn (v : Ver) (gz : GzOracle) (codec : UInt8) (pend : Option Header) (q : Bytes)
     (hp : PendOK v pend) :
     unpackAbs v gz codec pend q = unpackAbs v gz codec none (unread v pend q) :=
